@@ -53,7 +53,28 @@ def run(ctx):
     jobs.append({'seeds': ['C=C', 'CC'], 'rules': [SMARTS[0], SMARTS[6]], 'timeout': 300})
     jobs.append({'seeds': ['C=C'], 'rules': [SMARTS[4], SMARTS[6]], 'timeout': 300})
     jobs.append({'seeds': ['C'], 'rules': [SMARTS[0], RING[0]], 'timeout': 300})
+    # twins: the same rule given as reaction SMARTS and as RING text (incl. scission written as `decrease bond order` on a single
+    # bond) must generate the same network - an oracle for the closure that does not go through the RING edit primitives
+    RING_DEC = ['rule dcc{ reactant r{ C? labeled c1 C? labeled c2 single bond to c1} decrease bond order (c1,c2) '
+                'increase number of radical (c1) increase number of radical (c2)}',
+                'rule ddb{ reactant r{ C? labeled c1 C? labeled c2 double bond to c1} decrease bond order (c1,c2) '
+                'increase number of radical (c1) increase number of radical (c2)}']
+    TWINS = [([SMARTS[0]], [RING[0]]), ([SMARTS[1]], [RING[1]]), ([SMARTS[1]], [RING_DEC[0]]), ([SMARTS[4]], [RING_DEC[1]]),
+             ([SMARTS[0], SMARTS[1]], [RING[0], RING_DEC[0]]), ([SMARTS[2], SMARTS[3]], [RING[2], RING[3]])]
+    twin_idx = []
+    for k in range(ctx.n(8, 80)):
+        a, b = TWINS[k % len(TWINS)]
+        seeds = rng.sample(['CC', 'CCC', 'C=C', 'CC=C', 'CCO', 'CO', 'C1CC1', 'CC(C)C'], rng.choice([1, 1, 2]))
+        twin_idx.append((len(jobs), len(jobs) + 1))
+        jobs.append({'seeds': seeds, 'rules': a, 'timeout': 300})
+        jobs.append({'seeds': seeds, 'rules': b, 'timeout': 300})
     res = vlib.run_impl_sharded('net', jobs, timeout=3000)
+    for a, b in twin_idx:
+        ra, rb = res[a], res[b]
+        if 'impl' in ra and 'impl' in rb and sorted(ra['impl']) != sorted(rb['impl']):
+            ctx.violate('twin:%s|%s' % (','.join(jobs[a]['seeds']), jobs[b]['rules'][0][:30]),
+                        'the same rules given as reaction SMARTS and as RING text generate different networks',
+                        {'seeds': jobs[a]['seeds'], 'smarts': jobs[a]['rules'], 'ring': jobs[b]['rules']}, sorted(ra['impl'])[:12], sorted(rb['impl'])[:12])
     rows = []
     hist = {'networks': 0, 'species_total': 0, 'skipped_capped': 0, 'max_species': 0}
     for j, r in zip(jobs, res):
